@@ -215,8 +215,12 @@ Definition update_var (s : st) (x : string) (v : var) : st :=
   else s.
 
 Definition add_var (s : st) (x : string) (v : var) : res st :=
-  if smemk x (curr_scope s) then Err (EInternal KValue)
-  else Ok (with_scopes s ((curr_scope s ++ [(x, v)]) :: tl (scopes s))).
+  match scopes s with
+  | [] => Err (EInternal KIndex)                  (* self._scope[-1] on an empty stack *)
+  | sc :: rest =>
+      if smemk x sc then Err (EInternal KValue)
+      else Ok (with_scopes s ((sc ++ [(x, v)]) :: rest))
+  end.
 
 Definition push_scope (s : st) : st := with_scopes s ([] :: scopes s).
 Definition pop_scope (s : st) : st := with_scopes s (tl (scopes s)).
